@@ -217,6 +217,41 @@ Theorem C10_distributed_plan_equals_central :
 Proof. exact DistEquiv.distributed_plan_equals_central. Qed.
 Print Assumptions C10_distributed_plan_equals_central.
 
+(* ... and plans that use a distributed topk / bottomk below other operators: the relation is indexed by
+   the lookback and the step (DistEquivAt.jsim_at contains jsim and the distributed topk at a step at
+   which no two samples of a group of the union tie, and is closed under the operators) *)
+From Verif Require DistEquivAt.
+Theorem C10_distributed_plan_with_topk_equals_central :
+  forall cf w t t' ts, (0 < Compose.c_shards cf)%nat -> (0 < Compose.c_batch cf)%nat -> (0 <= Compose.c_lookback cf)%Z ->
+  Base.wf_window w -> (Bin.noT < Base.w_start w)%Z ->
+  DistEquivAt.jsim_at (Compose.c_lookback cf) ts t t' -> Trees.jok t -> Trees.jok t' -> In ts (Grid.grid w) ->
+  exists outs outs',
+    Trees.jrun cf w t = inl outs /\ Trees.jrun cf w t' = inl outs' /\
+    forall R, Trees.jref (Compose.c_lookback cf) t ts = Some R ->
+      Permutation (Bin.labelled Z (Trees.jseries t) (DistTree.step_of outs ts))
+                  (Bin.labelled Z (Trees.jseries t') (DistTree.step_of outs' ts)).
+Proof. exact DistEquivAt.distributed_plan_with_topk_equals_central. Qed.
+Print Assumptions C10_distributed_plan_with_topk_equals_central.
+
+(* non-vacuity: sum by (b) (topk by (b) (1, foo)) with foo's series on two engines, at a step without ties *)
+Example C10_plan_with_topk_example :
+  let f1 := ([[(0, 10); (1, 20); (2, 31)]; [(0, 10); (1, 22); (2, 31)]]%N, [[Base.mkS 990 (Some 2)]; [Base.mkS 992 (Some 9)]]%Z) in
+  let f2 := ([[(0, 10); (1, 21); (2, 31)]]%N, [[Base.mkS 995 (Some 5)]]%Z) in
+  let s := DistTree.SLeaf 0%Z None in
+  DistEquivAt.jsim_at 300%Z 1000%Z
+    (Trees.JAgg (fun v => v) Z.add false [2%N]
+       (Trees.JTopk false 1 false [2%N] (DistTree.inst s (List.concat (map fst [f1; f2])) (List.concat (map snd [f1; f2])))))
+    (Trees.JAgg (fun v => v) Z.add false [2%N]
+       (Trees.JTopk false 1 false [2%N]
+          (DistTree.jcoalesce (TopkDist.remote_topk false 1 false [2%N] s f1) (map (TopkDist.remote_topk false 1 false [2%N] s) [f2])))).
+Proof.
+  cbv zeta. apply DistEquivAt.sat_aggc; try (intros; lia). apply DistEquivAt.sat_topk.
+  - simpl; auto.
+  - unfold DistTree.part_ok; simpl. split; [reflexivity|repeat constructor].
+  - repeat constructor.
+  - vm_compute. reflexivity.
+Qed.
+
 (* non-vacuity of the plan relation: sum by (b) (foo) - on (b) max by (b) (bar), both sides distributed
    over two engines (one partition of bar is empty) *)
 Example C10_plan_example :
@@ -256,7 +291,7 @@ Proof. cbv zeta. split; vm_compute; reflexivity. Qed.
    execution's read-back and the coalesce operator - per-series expressions, sum/max/min,
    count and group aggregations and (tie-free) topk/bottomk of them over any number of engines, and
    whole plans built from the expression, sum/max/min, count and group forms by the other operators
-   (C10_distributed_plan_equals_central). Not proved end to end: topk
-   with ties (C10_topk_pushdown: a top-k selection, not necessarily the central engine's) and
-   plans that use a distributed topk below other operators. Those are decided by the dist
+   (C10_distributed_plan_equals_central), and plans that use a distributed tie-free topk below other
+   operators (C10_distributed_plan_with_topk_equals_central). Not proved end to end: topk
+   with ties (C10_topk_pushdown: a top-k selection, not necessarily the central engine's). Those are decided by the dist
    oracle and the distributed tree correspondence of the check. *)
